@@ -3,8 +3,10 @@ import SamVerif.Model.Fmt
 C08, third model: the expression fragment of `Model/Fmt.lean` with the formerly opaque units opened
 up — call arguments, tuple elements, the condition and the two branches of if-else, the matched
 expression and the case bodies of match, blocks `{ e }`, lambda bodies are recursive sub-expressions.
+Blocks have statements (`let … = e;`, `e;`) and an optional final expression.
 Still opaque (one token each): identifiers/literals, member names with their optional explicit type
-arguments, match patterns (`pattern ->`), lambda parameter lists.
+arguments, match patterns (`pattern ->`), the `let pattern [: type] =` prefix of a declaration statement
+(patterns themselves: `Model/FmtPat.lean`), lambda parameter lists.
 
 Printer (`source_printer.rs`): `create_doc_without_preceding_comment` (578-790) with
 `create_doc_for_parenthesized_expression_list` (486-508; tuples and call arguments, elements never
@@ -25,17 +27,18 @@ open SamVerif.Fmt (BinOp UOp)
 mutual
 /-- `post e p fld`: member access; `fld = true`: plain `.name`, `false`: `.name<targs>`.
 `call0 f` = `f()`, `call f args` = `f(a1, …)`; `tuple e es` = `(e, es…)` (at least two elements);
-`block e` = `{ e }`; `ifElse c t e` = `if c { t } else { e }`; `matchE m cs`; `lambda k body`. -/
+`block b` = `{ statements… final? }`; `ifElse c t e` = `if c t else e` with blocks `t`, `e`;
+`matchE m cs`; `lambda k body`. -/
 inductive Expr where
   | atom (a : Nat)
   | tuple (e : Expr) (es : Args)
-  | block (e : Expr)
+  | block (b : Blk)
   | post (e : Expr) (p : Nat) (field : Bool)
   | call0 (f : Expr)
   | call (f : Expr) (args : Args)
   | unary (u : UOp) (e : Expr)
   | binary (o : BinOp) (l r : Expr)
-  | ifElse (c t e : Expr)
+  | ifElse (c : Expr) (t e : Blk)
   | matchE (m : Expr) (cs : Cases)
   | lambda (k : Nat) (body : Expr)
   deriving DecidableEq
@@ -48,6 +51,18 @@ inductive Args where
 inductive Cases where
   | one (pat : Nat) (body : Expr)
   | cons (pat : Nat) (body : Expr) (rest : Cases)
+  deriving DecidableEq
+/-- statements of a block: `let pattern [: type] = e;` (`k` numbers the opaque text up to `=`) and
+expression statements `e;`. -/
+inductive Stmts where
+  | nil
+  | letS (k : Nat) (e : Expr) (rest : Stmts)
+  | exprS (e : Expr) (rest : Stmts)
+  deriving DecidableEq
+/-- a block: statements and an optional final expression. -/
+inductive Blk where
+  | fin (ss : Stmts) (e : Expr)
+  | noFin (ss : Stmts)
   deriving DecidableEq
 end
 
@@ -64,11 +79,12 @@ def Expr.prec : Expr → Nat
   | .lambda _ _ => 12
 
 inductive Tok where
-  | lp | rp | bang | comma | lb | rb | kwIf | kwElse | kwMatch
+  | lp | rp | bang | comma | lb | rb | kwIf | kwElse | kwMatch | semi
   | op (o : BinOp)
   | atom (a : Nat)
   | post (p : Nat) (field : Bool)
   | pat (k : Nat)      -- `pattern ->`
+  | letK (k : Nat)     -- `let pattern [: type] =`
   | lam (k : Nat)      -- `(params) ->`
   deriving DecidableEq, Repr, Inhabited
 
@@ -103,7 +119,7 @@ mutual
 def printE : Expr → List Tok
   | .atom a => [.atom a]
   | .tuple e es => .lp :: (printE e ++ .comma :: (printArgs es ++ [.rp]))
-  | .block e => .lb :: (printE e ++ [.rb])
+  | .block b => .lb :: printBody b
   | .post e p fld => sub 1 false e (printE e) ++ [.post p fld]
   | .call0 f => sub 1 false f (printE f) ++ [.lp, .rp]
   | .call f args => sub 1 false f (printE f) ++ .lp :: (printArgs args ++ [.rp])
@@ -119,7 +135,7 @@ def printE : Expr → List Tok
     else
       sub p true l (printE l) ++ [.op o] ++ sub p true r (printE r)
   | .ifElse c t e =>
-    .kwIf :: (printE c ++ .lb :: (printE t ++ .rb :: .kwElse :: .lb :: (printE e ++ [.rb])))
+    .kwIf :: (printE c ++ .lb :: (printBody t ++ .kwElse :: .lb :: printBody e))
   | .matchE m cs => .kwMatch :: (printE m ++ .lb :: (printCases cs ++ [.rb]))
   | .lambda k body => .lam k :: sub 12 false body (printE body)
 def printArgs : Args → List Tok
@@ -128,6 +144,16 @@ def printArgs : Args → List Tok
 def printCases : Cases → List Tok
   | .one k b => .pat k :: (printE b ++ [.comma])
   | .cons k b rest => .pat k :: (printE b ++ .comma :: printCases rest)
+/-- `create_doc_for_block` after the opening brace (source_printer.rs:510-576): statements, final
+expression, closing brace. -/
+def printBody : Blk → List Tok
+  | .fin ss e => printStmts ss ++ (printE e ++ [.rb])
+  | .noFin ss => printStmts ss ++ [.rb]
+/-- `statement_to_document` / `declaration_statement_to_document` (883-929). -/
+def printStmts : Stmts → List Tok
+  | .nil => []
+  | .letS k e rest => .letK k :: (printE e ++ .semi :: printStmts rest)
+  | .exprS e rest => printE e ++ .semi :: printStmts rest
 end
 
 def startsLt : List Tok → Bool
@@ -135,6 +161,13 @@ def startsLt : List Tok → Bool
   | _ => false
 
 abbrev PResult := Option (Expr × List Tok)
+
+def Blk.consLet (k : Nat) (e : Expr) : Blk → Blk
+  | .fin ss x => .fin (.letS k e ss) x
+  | .noFin ss => .noFin (.letS k e ss)
+def Blk.consExpr (e : Expr) : Blk → Blk
+  | .fin ss x => .fin (.exprS e ss) x
+  | .noFin ss => .noFin (.exprS e ss)
 
 mutual
 /-- `parse_expression`. -/
@@ -150,14 +183,35 @@ def parseTop : Nat → List Tok → PResult
   | f + 1, .kwIf :: ts =>
     match parseTop f ts with
     | some (c, .lb :: r) =>
-      match parseTop f r with
-      | some (t, .rb :: .kwElse :: .lb :: r2) =>
-        match parseTop f r2 with
-        | some (e, .rb :: r3) => some (.ifElse c t e, r3)
-        | _ => none
+      match parseStmts f r with
+      | some (t, .kwElse :: .lb :: r2) =>
+        match parseStmts f r2 with
+        | some (e, r3) => some (.ifElse c t e, r3)
+        | none => none
       | _ => none
     | _ => none
   | f + 1, ts => parseLevel f 0 ts
+/-- `parse_block` after the opening brace (1628-1730): `let` statements, empty statements, expression
+statements, the optional final expression, through the closing brace. -/
+def parseStmts : Nat → List Tok → Option (Blk × List Tok)
+  | 0, _ => none
+  | _ + 1, .rb :: r => some (.noFin .nil, r)
+  | f + 1, .semi :: r => parseStmts f r
+  | f + 1, .letK k :: ts =>
+    match parseTop f ts with
+    | some (e, .semi :: r) =>
+      match parseStmts f r with
+      | some (b, r') => some (b.consLet k e, r')
+      | none => none
+    | _ => none
+  | f + 1, ts =>
+    match parseTop f ts with
+    | some (e, .semi :: r) =>
+      match parseStmts f r with
+      | some (b, r') => some (b.consExpr e, r')
+      | none => none
+    | some (e, .rb :: r) => some (.fin .nil e, r)
+    | _ => none
 /-- `parse_pattern_to_expression` loop of `parse_match`, through the closing brace. -/
 def parseCases : Nat → List Tok → Option (Cases × List Tok)
   | 0, _ => none
@@ -192,9 +246,9 @@ def parseBase : Nat → List Tok → PResult
     | some (body, r) => some (.lambda k body, r)
     | none => none
   | f + 1, .lb :: ts =>
-    match parseTop f ts with
-    | some (e, .rb :: r) => some (.block e, r)
-    | _ => none
+    match parseStmts f ts with
+    | some (b, r) => some (.block b, r)
+    | none => none
   | f + 1, .lp :: ts =>
     match parseTop f ts with
     | some (e, .rp :: r) => some (e, r)
@@ -299,12 +353,12 @@ mutual
 def rg (ctx : Option (BinOp × Expr)) : Expr → Expr
   | .atom a => wrapCtx ctx (.atom a)
   | .tuple e es => wrapCtx ctx (.tuple (rg none e) (rgArgs es))
-  | .block e => wrapCtx ctx (.block (rg none e))
+  | .block b => wrapCtx ctx (.block (rgBlk b))
   | .post e p f => wrapCtx ctx (.post (rg none e) p f)
   | .call0 f => wrapCtx ctx (.call0 (rg none f))
   | .call f args => wrapCtx ctx (.call (rg none f) (rgArgs args))
   | .unary u e => wrapCtx ctx (.unary u (rg none e))
-  | .ifElse c t e => wrapCtx ctx (.ifElse (rg none c) (rg none t) (rg none e))
+  | .ifElse c t e => wrapCtx ctx (.ifElse (rg none c) (rgBlk t) (rgBlk e))
   | .matchE m cs => wrapCtx ctx (.matchE (rg none m) (rgCases cs))
   | .lambda k b => wrapCtx ctx (.lambda k (rg none b))
   | .binary o' a b =>
@@ -321,6 +375,13 @@ def rgArgs : Args → Args
 def rgCases : Cases → Cases
   | .one k b => .one k (rg none b)
   | .cons k b rest => .cons k (rg none b) (rgCases rest)
+def rgBlk : Blk → Blk
+  | .fin ss e => .fin (rgStmts ss) (rg none e)
+  | .noFin ss => .noFin (rgStmts ss)
+def rgStmts : Stmts → Stmts
+  | .nil => .nil
+  | .letS k e rest => .letS k (rg none e) (rgStmts rest)
+  | .exprS e rest => .exprS (rg none e) (rgStmts rest)
 end
 
 def regroup (e : Expr) : Expr := rg none e
